@@ -70,8 +70,13 @@ def tasks(tier):
                     continue
                 if not quick and late_kind == "sync" and a not in (0, 3, 4, 6):
                     continue
-                out.append({"kind": "names", "guard_menu": g, "act_menu": a, "late_kind": late_kind, "quick": quick, "equal": late_kind == "sync" and (g + a) % 2 == 1,
-                            "private": late_kind == "sync" and g % 2 == 0})
+                base = {"kind": "names", "guard_menu": g, "act_menu": a, "late_kind": late_kind, "quick": quick, "equal": late_kind == "sync" and (g + a) % 2 == 1,
+                        "private": late_kind == "sync" and g % 2 == 0}
+                if quick and late_kind == "sync" and g in (4, 6):
+                    for em in range(3):
+                        out.append(dict(base, enter_menu=em))
+                else:
+                    out.append(base)
     for g in ((3,) if quick else (3, 4, 6)):
         out.append({"kind": "names", "guard_menu": g, "act_menu": 0, "late_kind": "sync", "quick": quick, "equal": False, "expr": True})
     out.append({"kind": "per-instance", "quick": quick})
@@ -180,7 +185,10 @@ def run(ctx, params):
     conv_pool = [CONV_MENUS[i] for i in ((0, 4, 7, 8) if not quick else (0, 4, 7))]
     if expr:
         conv_pool = [CONV_MENUS[0]]
-    enter_prov = conv_pool[ctx.choose(len(conv_pool), "enter_menu")] if not with_flag else []
+    if params.get("enter_menu") is not None:
+        enter_prov = conv_pool[params["enter_menu"]]  # the big provider sets are split over tasks by this choice
+    else:
+        enter_prov = conv_pool[ctx.choose(len(conv_pool), "enter_menu")] if not with_flag else []
     if with_flag:
         after_prov = []
     elif quick:
